@@ -92,6 +92,16 @@ type Key interface {
 	Shift([]byte) (Key, error)
 }
 
+// A HardenedOnlyKey is an optional interface implemented by keys of curves, like ed25519,
+// for which SLIP-10 only defines hardened child derivation.
+type HardenedOnlyKey interface {
+	Key
+
+	// HardenedOnly returns the error to report when a non-hardened child is requested from the key.
+	// If nil is returned, non-hardened derivation is attempted.
+	HardenedOnly() error
+}
+
 // NewMasterKey creates a new master private extended key for the curve from a seed.
 func NewMasterKey(seed []byte, curve Curve) (*ExtendedKey, error) {
 	inter := make([]byte, 0, 64)
@@ -164,6 +174,13 @@ func (e *ExtendedKey) DeriveChild(index uint32) (*ExtendedKey, error) {
 		}
 		inter = h.Sum(inter[:0])
 	} else {
+		// non-hardened derivation is not defined for every curve
+		if k, ok := e.Key.(HardenedOnlyKey); ok {
+			if err := k.HardenedOnly(); err != nil {
+				return nil, fmt.Errorf("failed to derive the child key: %w", err)
+			}
+		}
+
 		// I = HMAC-SHA512(Key = chain_par, Data = ser_P(public_par) || ser32(index)),
 		// where public_par = key_par if par is a public key, or public_par = point(key_par) otherwise
 		h, err := hmacSHA512(e.ChainCode, e.Key.Public().Bytes(), uint32Bytes(index))
